@@ -61,8 +61,9 @@ Definition patch_fields_cap (pre post : bool) (budget : nat) : bool * nat :=
 (* one PatchTreasures item: key, the post-patch value of "matches" when the record did not
    match before (or is created), and when it did *)
 (* ipc: the post-patch value when the record is CREATED by this patch (ops applied to the
-   InitialMsgpackOnCreate seed; a create always counts as pre = not matching) *)
-Record item := { ik : N; ipf : bool; ipt : bool; ipc : bool }.
+   InitialMsgpackOnCreate seed; a create always counts as pre = not matching);
+   iskip: the patch carries a Condition that is not met: CONDITION_NOT_MET (3), nothing changes *)
+Record item := { ik : N; ipf : bool; ipt : bool; ipc : bool; iskip : bool }.
 
 Inductive wop :=
 | WDel (k : N)                       (* delete *)
@@ -87,6 +88,7 @@ Inductive pc :=
 | Done.
 
 (* per-item result codes (PatchResult.StatusCode): 0 PATCHED, 1 CREATED, 2 KEY_NOT_FOUND,
+   3 CONDITION_NOT_MET,
    9 CAP_EXCEEDED; for PE/SH: (key, 0) per selected key *)
 Record local := { lpc : pc; lres : list (N * N) }.
 
@@ -126,11 +128,13 @@ Definition patch_item (create : bool) (it : item) (budget : nat) (l : list rec)
   match lookup (ik it) l with
   | None =>
       if create then
+        if iskip it then (l, budget, 3%N) else
         let '(ok, b') := patch_fields_cap false (ipc it) budget in
         if ok then (l ++ [{| rk := ik it; rm := ipc it; rx := false; rd := false |}], b', 1%N)
         else (l, b', 9%N)
       else (l, budget, 2%N)
   | Some r =>
+      if iskip it then (l, budget, 3%N) else
       let post := if rm r then ipt it else ipf it in
       let '(ok, b') := patch_fields_cap (rm r) post budget in
       if ok then (replace (ik it) {| rk := rk r; rm := post; rx := rx r; rd := rd r |} l, b', 0%N)
